@@ -78,6 +78,11 @@ fn len_class(id: &HashId, len: usize) -> String {
     format!("{}/{}", id.name(), fin)
 }
 
+thread_local! {
+    /// one long-lived instance per hash type, reused across cases through finalize_reset()
+    static REUSED: std::cell::RefCell<std::collections::HashMap<String, Box<dyn api::DynHash>>> = std::cell::RefCell::new(std::collections::HashMap::new());
+}
+
 pub fn exec(cx: &mut Ctx, c: &Case) {
     let m = message(c.len, c.pat, c.mseed);
     let sigp = format!("{}|{}|{}", cx.prop, c.id.name(), api::profile());
@@ -141,6 +146,36 @@ pub fn exec(cx: &mut Ctx, c: &Case) {
             Err(p) => cx.log.panic_violation(&format!("{}|incremental", sigp), &p),
         }
     }
+    // ... and whatever the instance did before: a long-lived instance that is finalized in place
+    // (finalize_fixed_reset) and reused for the next message must give the same digest
+    api::force_backend(c.fb);
+    let name = c.id.name();
+    let reused = guarded(|| {
+        REUSED.with(|p| {
+            let mut p = p.borrow_mut();
+            let h = p.entry(name.clone()).or_insert_with(|| c.id.new());
+            h.update(&m);
+            h.finalize_reset()
+        })
+    });
+    api::force_backend(0);
+    cx.log.eval(1);
+    match reused {
+        Ok(g) => {
+            if g != exp {
+                cx.log.violation(
+                    &format!("{}|wrong-digest-reused-instance", sigp),
+                    &format!("len {} hashed by an instance reused after finalize_reset: digest {} reference {}", c.len, hex(&g), hex(&exp)),
+                );
+                // start from a clean instance again so that one bad state is not reported forever
+                REUSED.with(|p| p.borrow_mut().remove(&name));
+            }
+        }
+        Err(p) => {
+            REUSED.with(|q| q.borrow_mut().remove(&name));
+            cx.log.panic_violation(&format!("{}|reused-instance", sigp), &p)
+        }
+    }
     cx.log.event("digest_bytes_compared", exp.len() as u64);
     cx.log.event("message_bytes", c.len as u64);
 }
@@ -186,7 +221,7 @@ pub fn run(cx: &mut Ctx) {
         if id.fam == Fam::Skein && ![1usize, 7, 32, 33, 64, 100, 129, 300].contains(&id.out) {
             continue;
         }
-        let top = 3 * id.block_size() + 8;
+        let top = if cfg!(miri) { id.block_size() + 8 } else { 3 * id.block_size() + 8 };
         for len in 0..=top {
             for &pat in sweep_pats {
                 k += 1;
@@ -214,8 +249,8 @@ pub fn run(cx: &mut Ctx) {
         done += 1;
         let id = *rng.pick(&menu);
         let bs = id.block_size() as u64;
-        let len = match rng.below(10) {
-            0..=3 => rng.below(3 * bs + 9),
+        let len = match if cfg!(miri) { 0 } else { rng.below(10) } {
+            0..=3 => rng.below(if cfg!(miri) { bs + 9 } else { 3 * bs + 9 }),
             4..=6 => bs * rng.range(1, 40) + rng.below(3) - 1 + rng.below(2) * (bs - 9),
             7 if id.fam == Fam::Groestl && !cfg!(miri) => 255 * bs + rng.below(3 * bs), // 255/256/257 blocks incl. padding
             _ => rng.below(maxrand),
